@@ -110,6 +110,149 @@ def selection_measure(cls, rows, active_index, n_draws, swept, fixed=0.37, grid=
     return measure, len(points)
 
 
+class _Capture(Monitor):
+    """Records the table a handler fills while the harness drives a copy of it (the only monitor attached then)."""
+    name = "capture"
+
+    def __init__(self):
+        self.rows = None
+        self.asked = False
+
+    def on_lifting_call(self, lifting, name, args, kwargs, result, exc):
+        if name == "reset":
+            self.rows = []
+        elif name == "insert" and self.rows is not None:
+            rate = args[0] if args else kwargs["lifting_rate"]
+            identifier = args[1] if len(args) > 1 else kwargs["associated_identifier"]
+            is_active = args[2] if len(args) > 2 else kwargs["is_active"]
+            self.rows.append((rate, tuple(identifier) if isinstance(identifier, (list, tuple)) else identifier,
+                              bool(is_active)))
+        elif name == "get_active_identifier":
+            self.asked = True
+
+
+def _leaves(branches):
+    out, stack = [], list(branches)
+    while stack:
+        node = stack.pop()
+        if node.children:
+            stack.extend(node.children)
+        else:
+            out.append(node)
+    return out
+
+
+def _root_of(node):
+    while node.parent is not None:
+        node = node.parent
+    return node
+
+
+def _move_activity(branches, target_identifier):
+    """Same configuration, another leaf unit active (velocity and time stamp moved; every inner node on the way to
+    the leaf carries the velocity of its centre, as the tree state handler keeps it)."""
+    leaves = _leaves(branches)
+    active = [c for c in leaves if c.value.velocity is not None]
+    target = [c for c in leaves if tuple(c.value.identifier) == tuple(target_identifier)]
+    if len(active) != 1 or len(target) != 1 or target[0] is active[0]:
+        return False
+    active, target = active[0], target[0]
+    velocity, stamp = active.value.velocity, active.value.time_stamp
+    # inner nodes: take the velocity off the old path, put it on the new one
+    node = active.parent
+    while node is not None:
+        node.value.velocity = None
+        node.value.time_stamp = None
+        node = node.parent
+    active.value.velocity = None
+    active.value.time_stamp = None
+    target.value.velocity = list(velocity)
+    target.value.time_stamp = stamp
+    node = target.parent
+    while node is not None:
+        n_leaves = len(_leaves([node]))
+        node.value.velocity = [component / n_leaves for component in velocity]
+        node.value.time_stamp = stamp
+        node = node.parent
+    return True
+
+
+def tables_of_real_handler(handler, rows):
+    """For every unit with a positive derivative: the table (in insertion order) that a copy of the real event handler
+    fills when that unit is the active one in the same configuration.  The copy is driven through its public
+    methods with forced draws (a candidate after a displacement of about 1e-10, confirmation certain)."""
+    import copy
+    import inspect
+    from ..seams import HUB
+    try:
+        if len(inspect.signature(type(handler).send_out_state).parameters) != 1 or len(
+                inspect.signature(type(handler).send_event_time).parameters) != 2:
+            return None
+        state = handler._state
+        leaves = _leaves(state)
+    except Exception:
+        return None
+    if sum(1 for c in leaves if c.value.velocity is not None) != 1:
+        return None
+    result = {}
+    saved_monitors = HUB.monitors
+    saved_override = FACADE.override
+    saved_stream = FACADE.getstate()
+    saved_count = FACADE.count
+
+    def forced(kind, args, site, u):
+        if kind == "expovariate":
+            return 1e-10
+        if kind == "uniform":
+            return 0.5 if site and "Lifting" in site.split(".")[0] else 0.0
+        return None
+
+    _BUSY[0] += 1
+    try:
+        for index, (rate, identifier, is_active) in enumerate(rows):
+            if not rate > 0.0:
+                continue
+            if is_active:
+                result[index] = list(rows)
+                continue
+            capture = _Capture()
+            try:
+                clone = copy.deepcopy(handler)
+                branches = clone._state
+                if not _move_activity(branches, identifier):
+                    return None
+                HUB.attach([capture])
+                FACADE.override = forced
+                clone.send_event_time(branches)
+                clone.send_out_state()
+            except Exception:
+                return None
+            finally:
+                HUB.attach(saved_monitors)
+                FACADE.override = saved_override
+            if not capture.asked or not capture.rows:
+                return None
+            result[index] = capture.rows
+    finally:
+        _BUSY[0] -= 1
+        FACADE.setstate(saved_stream)
+        FACADE.count = saved_count
+    return result
+
+
+def _handler_on_stack(lifting):
+    import sys
+    frame = sys._getframe(2)
+    depth = 0
+    while frame is not None and depth < 14:
+        obj = frame.f_locals.get("self")
+        if obj is not None and obj is not lifting and getattr(obj, "_lifting", None) is lifting:
+            return obj
+        frame = frame.f_back
+        depth += 1
+    return None
+
+
 class Lifting(Monitor):
     name = "C05"
 
@@ -171,6 +314,14 @@ class Lifting(Monitor):
         if self.decisions % self.explore_every == 1 and self.explored < self.max_explorations:
             self.explored += 1
             self._explore(cls, rows, len(table.draws))
+            # the same balance with the tables the real handler fills for every other choice of the active unit (the
+            # order of insertion is the handler's, and the schemes that stack rates depend on it)
+            handler = _handler_on_stack(lifting)
+            tables = tables_of_real_handler(handler, rows) if handler is not None else None
+            if tables is None:
+                ctx.probes["c05_handler_level_exploration_skipped"] += 1
+            else:
+                self._explore(cls, rows, len(table.draws), tables, type(handler).__name__)
 
     def on_draw(self, kind, args, site, u, value):
         if _BUSY[0] or kind != "uniform" or site is None or "Lifting" not in site.split(".")[0]:
@@ -190,10 +341,25 @@ class Lifting(Monitor):
             frame = frame.f_back
             depth += 1
 
-    def _explore(self, cls, rows, n_draws):
+    def _explore(self, cls, rows, n_draws, tables=None, handler_name=None):
         ctx = self.ctx
         if n_draws == 0:
             return
+        per_active = {}
+        if tables is not None:
+            rates = {r[1]: r[0] for r in rows}
+            scale = sum(abs(r[0]) for r in rows)
+            for index, filled in tables.items():
+                if sorted(r[1] for r in filled) != sorted(rates) or any(
+                        abs(r[0] - rates[r[1]]) > 1e-5 * scale for r in filled):
+                    # the displaced copy saw another table (a kink of the potential next to this configuration)
+                    ctx.probes["c05_handler_table_differs_for_other_active_unit"] += 1
+                    return
+                want = rows[index][1]
+                per_active[index] = ([(rates[r[1]], r[1], r[1] == want) for r in filled],
+                                     [r[1] for r in filled].index(want))
+                if [r[1] for r in filled] != [r[1] for r in rows]:
+                    ctx.probes["c05_insertion_order_varies_with_active_unit"] += 1
         total_abs = sum(abs(r[0]) for r in rows)
         residual = abs(sum(r[0] for r in rows))
         if total_abs == 0.0:
@@ -205,15 +371,17 @@ class Lifting(Monitor):
             # which of the draws matters is found out by sweeping each; a draw that never changes the outcome has a
             # single-interval measure
             chosen = None
+            rows_i, active_i = per_active.get(i, (rows, i))
             for swept in range(n_draws - 1, -1, -1):
-                measure, n = selection_measure(cls, rows, i, n_draws, swept)
+                measure, n = selection_measure(cls, rows_i, active_i, n_draws, swept)
                 evaluations += n
                 if len(measure) > 1 or swept == 0:
                     chosen = measure
                     if len(measure) > 1:
                         # selection must not depend on the other draws
                         for other in (0.11, 0.83):
-                            again, n2 = selection_measure(cls, rows, i, n_draws, swept, fixed=other, grid=64)
+                            again, n2 = selection_measure(cls, rows_i, active_i, n_draws, swept, fixed=other,
+                                                          grid=64)
                             evaluations += n2
                             for k in set(measure) | set(again):
                                 if abs(measure.get(k, 0.0) - again.get(k, 0.0)) > 1e-9:
@@ -232,9 +400,12 @@ class Lifting(Monitor):
             if abs(inflow.get(identifier, 0.0) - (-rate)) > tol:
                 ctx.violation("C05", "lifted_flow_not_balanced",
                               {"unit": identifier, "inflow": inflow.get(identifier, 0.0), "outflow": -rate,
-                               "tolerance": tol, "table": rows, "scheme": cls.__name__})
+                               "tolerance": tol, "table": rows, "scheme": cls.__name__,
+                               "tables_filled_by": handler_name or "harness (order of the observed table)",
+                               "orders": {str(i): [r[1] for r in t[0]] for i, t in per_active.items()}})
             worst = abs(inflow.get(identifier, 0.0) + rate) / total_abs
             if worst > ctx.notes.get("c05_largest_relative_imbalance", 0.0):
                 ctx.notes["c05_largest_relative_imbalance"] = worst
-        ctx.probes["c05_tables_explored"] += 1
+        ctx.probes["c05_tables_explored_with_real_handler_orders" if tables is not None
+                   else "c05_tables_explored"] += 1
         ctx.probes["c05_forced_scheme_evaluations"] += evaluations
